@@ -158,6 +158,11 @@ pub fn check_case(t: &mut Tctx, which: &str, shape: &Shape, val: &Val, shape_fp:
         same!("to_extend_vecdeque", postcard::to_extend(val, VecDeque::<u8>::new()).map(|d| d.into_iter().collect()));
         same!("to_extend_sink", postcard::to_extend(val, Sink { data: Vec::new(), calls: 0 }).map(|s| s.data));
         same!("to_io", postcard::to_io(val, Vec::<u8>::new()));
+        {
+            use super::io::{Endpoint, Fault, Sched, StdEnd};
+            let sched = if t.rng.chance(1, 2) { Sched::OneByte } else { Sched::Short(t.rng.next() | 1) };
+            same!("to_io_short_writes", postcard::to_io(val, StdEnd(Endpoint::writer(sched, Fault::None))).map(|w| w.0.data));
+        }
         same!("to_eio", eio_write(val));
     } else {
         let mut buf = [0u8; 32];
@@ -236,8 +241,10 @@ pub fn check_case(t: &mut Tctx, which: &str, shape: &Shape, val: &Val, shape_fp:
         let mut scratch = vec![0u8; n + 8];
         let r = catch(|| {
             with_shape(shape, || {
-                let reader: &[u8] = &input[..];
-                postcard::from_io::<DynVal, _>((reader, &mut scratch[..])).map(|(v, (rd, _rest))| (v, rd.len()))
+                // a reader that delivers data in short pieces
+                use super::io::{Endpoint, Fault, Sched, StdEnd};
+                let reader = StdEnd(Endpoint::reader(&input[..], Sched::Short((input.len() as u64) | 1), Fault::None));
+                postcard::from_io::<DynVal, _>((reader, &mut scratch[..])).map(|(v, (rd, _rest))| (v, input.len() - rd.0.pos))
             })
         });
         match r {
